@@ -59,10 +59,17 @@ def struct_child(payload):
                 Rcls = U.RENDERERS[c["renderer"]]
                 if c["kind"] == "single":
                     prior = U.source_prior(c["types"][0], sky_type=sky, xc=N / 2, yc=N / 2, flux=80.0, r_eff=1.8, sky_guess=3.0 if positive else 0.4)
+                    if sky == "tilted-plane":
+                        # distinct, clearly non-zero slopes at the optimiser's starting point: the image clause then sees the plane's orientation
+                        prior.sky_prior.update_prior("sky_x_sl", 0.4, 0.05)
+                        prior.sky_prior.update_prior("sky_y_sl", -0.2, 0.05)
                     f = PP.FitSingle(data, rms, psf, prior, loss_func=loss, renderer=Rcls)
                     res = f.find_MAP(jax.random.PRNGKey(1), return_model=c["return_model"])
                 else:
                     prior, _ = U.multi_prior(c["types"], N, rng, sky_type=sky)
+                    if sky == "tilted-plane":
+                        prior.sky_prior.update_prior("sky_x_sl", 0.4, 0.05)
+                        prior.sky_prior.update_prior("sky_y_sl", -0.2, 0.05)
                     f = PP.FitMulti(data, rms, psf, prior, loss_func=loss, renderer=Rcls)
                     res = f.find_MAP(return_model=c["return_model"], rkey=jax.random.PRNGKey(1))
                 model = f.build_model(return_model=c["return_model"])
@@ -118,7 +125,7 @@ def gen_cases(rng, n):
     for k in range(n):
         multi = k % 3 == 2
         cases.append(dict(kind="multi" if multi else "single", types=[str(rng.choice(PTYPES)) for _ in range(int(rng.integers(1, 4)))] if multi else [PTYPES[k % 7]],
-                          sky=SKY[k % 3], loss=LOSSES[k % 10], renderer=["pixel", "hybrid", "fourier"][0 if k % 3 else int(rng.integers(0, 3))],
+                          sky=SKY[(k // 3) % 3], loss=LOSSES[k % 10], renderer=["pixel", "hybrid", "fourier"][0 if k % 3 else int(rng.integers(0, 3))],
                           return_model=bool(k % 4 != 3), seed=int(rng.integers(0, 2 ** 31))))
     return cases
 
